@@ -5,9 +5,9 @@ CONSTANTS
   LenA = 8
   LenB = 3
   BinSizes = {2, 3}
-  Bpjs = {1, 2, 4}
+  Bpjs = {1, 4}
   Mfss = {0, 2}
-  KindSet = {"good"}
+  KindSet = {"good", "unpaired"}
   KwargsSet = {"empty"}
   UseKeySet = {FALSE}
   NFiles = 1
